@@ -8,6 +8,8 @@ post-dominates the creation on all non-error paths is the last file-system effec
 remove-old and rename the output path does not exist, so a crash (process kill or failing write)
 at any point leaves either no file (=> rebuilt) or a complete one.
 """
+import re
+
 from . import core
 from .core import callee_of, origins
 from .report import Report
@@ -25,6 +27,12 @@ EXPLANATION = (
     "two calls and every byte offset of a failing write, because those only cut a path of this CFG short.")
 
 
+def path_arg(site):
+    """the path operand of a file-creating call"""
+    a = site["t"]["args"]
+    return a[1] if site["callee"] == "std::fs::OpenOptions::open" and len(a) > 1 else a[0]
+
+
 def run(tier):
     rep = Report("C22", LEVEL, tier)
     rep.explanation = EXPLANATION
@@ -36,19 +44,21 @@ def run(tier):
                    "effect table in rules/effects.py"]
     f = core.Facts(core.ensure_facts())
     p = Proto(f)
-    w = p.w
+    w = p.pub                # the function that creates/fills/publishes the file (the writer or its helper)
+    Y = p.pubY
     rel = w.relfile()
-    C = p.sites_with("CREATE", direct=True)
-    RN = p.sites_with("RENAME", direct=True)
-    WR = p.sites_with("WRITE", direct=True)
-    rep.analysed.update({"writer": w.path, "gate": p.gate.path, "CREATE_sites": len(C), "RENAME_sites": len(RN),
-                         "WRITE_sites": len(WR), "output_param": w.local_name(p.Y)})
+    C = p.psites("CREATE")
+    RN = p.psites("RENAME")
+    WR = p.psites("WRITE")
+    rep.analysed.update({"writer": p.w.path, "publisher": w.path, "gate": p.gate.path, "CREATE_sites": len(C), "RENAME_sites": len(RN),
+                         "WRITE_sites": len(WR), "output_param": w.local_name(Y)})
     rep.floor("file creation sites in the writer", len(C), 1)
     rep.floor("direct file writes in the writer", len(WR), 3)
-    err = p.error_exits
+    err = {bi for bi, t in w.calls() if "FromResidual" in (callee_of(t) or "")}
+    all_sites = p.sites if w is p.w else p.pub_sites
     for c in C:
-        direct = identity_param(w, c["t"]["args"][0]) == p.Y
-        rep.ob("O7a.no-create-at-final-path", p.site_desc(c), not direct,
+        direct = identity_param(w, path_arg(c)) == Y
+        rep.ob("O7a.no-create-at-final-path", p.pdesc(c), not direct,
                "the file is created directly at the output path and the version/hash header is written before "
                "the body: a crash or failing write after the header leaves a truncated file that the rebuild "
                "gate (which compares only the two header lines) accepts as current forever",
@@ -56,41 +66,75 @@ def run(tier):
         if direct:
             continue
         # a rename from the created path to the output path
-        src_loc = core.slice_locals(w, [c["t"]["args"][0]])
+        src_loc = core.slice_locals(w, [path_arg(c)])
         rn_ok = []
         for r in RN:
             a = r["t"]["args"]
             same_src = bool(core.slice_locals(w, [a[0]]) & src_loc - set(range(1, w.argc + 1)))
-            if same_src and identity_param(w, a[1]) == p.Y:
+            if same_src and identity_param(w, a[1]) == Y:
                 rn_ok.append(r)
-        rep.ob("O7c.rename-into-place", p.site_desc(c), len(rn_ok) == 1,
+        rep.ob("O7c.rename-into-place", p.pdesc(c), len(rn_ok) == 1,
                "no (unique) rename from the created temporary path to the output path",
                key="O7:no-rename", file=rel, line=c["ln"], fn=w.path)
         for r in rn_ok:
             # post-dominates creation on non-error paths
             reach = w.reachable([x for x in w.succ[c["block"]]], removed_blocks={r["block"]} | err)
             bad = [b for b in w.return_blocks() if b in reach]
-            rep.ob("O7c.rename-postdominates-create", p.site_desc(r), not bad,
+            rep.ob("O7c.rename-postdominates-create", p.pdesc(r), not bad,
                    "a non-error path from the creation of the temporary file reaches the function exit without the rename",
                    key="O7:rename-skippable", file=rel, line=r["ln"], fn=w.path)
             for s in WR:
-                rep.ob("O7c.write-before-rename", p.site_desc(s), w.dominates(s["block"], r["block"]),
+                rep.ob("O7c.write-before-rename", p.pdesc(s), w.dominates(s["block"], r["block"]),
                        "a write is not guaranteed to happen before the rename",
                        key="O7:write-after-rename", file=rel, line=s["ln"], fn=w.path)
             after = w.reachable(w.succ[r["block"]])
-            late = [s for s in p.sites if s["block"] in after and (s["eff"] & MUTATING)]
-            rep.ob("O7c.rename-is-last-effect", p.site_desc(r), not late,
+            late = [s for s in all_sites if s["block"] in after and (s["eff"] & MUTATING)]
+            rep.ob("O7c.rename-is-last-effect", p.pdesc(r), not late,
                    "file-system effects follow the rename: %s" % [s["callee"] for s in late],
                    key="O7:effect-after-rename", file=rel, line=r["ln"], fn=w.path)
             # temp path must live next to the final path: derived from the output parameter
             ps, _ = arg_params(w, r["t"]["args"][0], deep=True, facts=f)
-            rep.ob("O7c.temp-derived-from-output-path", p.site_desc(r), p.Y in ps,
+            rep.ob("O7c.temp-derived-from-output-path", p.pdesc(r), Y in ps,
                    "the temporary path is not derived from the output path (rename may cross file systems)",
                    key="O7:temp-elsewhere", file=rel, line=r["ln"], fn=w.path)
+    # O7d: the temporary file starts empty (a stale temp file of an interrupted build must not leak its tail)
+    for c in C:
+        cal = c["callee"]
+        fresh = cal in ("std::fs::File::create", "std::fs::File::create_new", "std::fs::write")
+        if cal == "std::fs::OpenOptions::open":
+            chain = []
+            cur = c["t"]["args"][0]
+            for _ in range(12):
+                l = core.op_local(cur)
+                nxt = None
+                for dbi, si, d in (w.defs.get(l, []) if l is not None else []):
+                    if si == "t":
+                        chain.append((callee_of(d), core.const_int(d["args"][1]) if len(d["args"]) > 1 else None))
+                        nxt = d["args"][0] if d["args"] else None
+                    elif d["r"]["k"] in ("ref", "use"):
+                        nxt = {"k": "copy", "p": d["r"]["p"]} if d["r"]["k"] == "ref" else d["r"]["o"]
+                if nxt is None:
+                    break
+                cur = nxt
+            fresh = any(cc and cc.endswith("OpenOptions::truncate") and v == 1 for cc, v in chain) or \
+                any(cc and cc.endswith("OpenOptions::create_new") and v == 1 for cc, v in chain)
+        rep.ob("O7d.temp-file-starts-empty", p.pdesc(c), fresh,
+               "the temporary file is opened without truncation: the tail of a longer stale temp file left by an interrupted build survives "
+               "behind the new (shorter) contents and is renamed into place under a correct header", key="O7:temp-not-truncated",
+               file=rel, line=c["ln"], fn=w.path)
+    # O7e: writes through a buffering wrapper must be flushed (and the flush checked) before the rename
+    buffered = [i for i, l in enumerate(w.locals) if re.search(r"std::io::(BufWriter|LineWriter)<", l["ty"]) and not l["ty"].startswith("&")]
+    for l in buffered:
+        fl = [(bi, t) for bi, t in w.calls() if (callee_of(t) or "").endswith("::flush") or (callee_of(t) or "").endswith("::into_inner")]
+        fl = [(bi, t) for bi, t in fl if l in core.slice_locals(w, [t["args"][0]])]
+        okf = bool(fl) and bool(RN) and all(any(w.dominates(bi, r["block"]) for bi, t in fl) for r in RN)
+        rep.ob("O7e.buffered-writer-flushed-before-rename", "%s local _%d: %s" % (w.path.split("::")[-1], l, w.local_ty(l)[:60]), okf,
+               "the output goes through a buffering writer that is not explicitly flushed before the rename: a write error in the last buffered "
+               "chunk is swallowed when the writer is dropped and a truncated file is published", key="O7:unflushed-buffer", file=rel, line=w.line, fn=w.path)
     for s in WR:
         recv = origins(w, s["t"]["args"][0], facts=f)
         sites = {d[2] for d in recv if d[0] == "call" and any(c["block"] == d[2] for c in C)}
-        rep.ob("O7b.write-targets-created-file", p.site_desc(s), len(sites) == 1,
+        rep.ob("O7b.write-targets-created-file", p.pdesc(s), len(sites) == 1,
                "write to a file that was not created by this function",
                key="O7:foreign-write", file=rel, line=s["ln"], fn=w.path)
     # (d) the gate reads exactly two lines and nothing else from the output file
